@@ -35,7 +35,11 @@ pub fn take_unguarded() -> Option<(String, String)> {
 /// A panic location belongs to the library under test iff it is an absolute path (path dependency outside this
 /// crate) that is neither the cargo registry nor the standard library.
 pub fn is_library_location(raw: &str) -> bool {
-    raw.starts_with('/') && !raw.contains("/.cargo/registry/") && !raw.starts_with("/rustc/") && !raw.contains("/rustlib/")
+    raw.starts_with('/')
+        && !raw.starts_with(concat!(env!("CARGO_MANIFEST_DIR"), "/"))
+        && !raw.contains("/.cargo/registry/")
+        && !raw.starts_with("/rustc/")
+        && !raw.contains("/rustlib/")
 }
 
 pub fn strip_location(raw: &str) -> String {
